@@ -4,6 +4,7 @@ import (
 	"encoding/hex"
 	"fmt"
 	"os"
+	"reflect"
 	"regexp"
 	"strings"
 
@@ -16,6 +17,35 @@ import (
 )
 
 func init() { props["C03"] = runC03 }
+
+var wordRe = regexp.MustCompile(`[A-Za-z_]+|'[^']*'`)
+
+// blanksOutsideQuotes: every blank outside a quoted string replaced by sep
+func blanksOutsideQuotes(s, sep string) string {
+	var b strings.Builder
+	inQ := false
+	for i := 0; i < len(s); i++ {
+		if s[i] == '\'' {
+			inQ = !inQ
+		}
+		if s[i] == ' ' && !inQ {
+			b.WriteString(sep)
+		} else {
+			b.WriteByte(s[i])
+		}
+	}
+	return b.String()
+}
+
+// lowerKeywordsOnly: every unquoted word in lower case (keywords and, harmlessly, the lower-case identifiers of the catalogue)
+func lowerKeywordsOnly(s string) string {
+	return wordRe.ReplaceAllStringFunc(s, func(w string) string {
+		if strings.HasPrefix(w, "'") {
+			return w
+		}
+		return strings.ToLower(w)
+	})
+}
 
 // canonFnRaw: function names are written as spelled (the Lean driver's canonical form) instead of upper-cased
 var canonFnRaw bool
@@ -329,6 +359,42 @@ func runC03(c *runCtx) {
 					q := &GSelect{Cols: []GCol{{E: id("x")}}, From: []GFrom{{Table: "t"}}, Where: e, Limit: -1, Offset: -1}
 					check(q, g.renderSelect(q), "operator-pair")
 				}
+			}
+		}
+	}
+	// the clause catalogue: statements of the rest of the documented surface (locking, FETCH, windows and frames,
+	// aggregate modifiers, DISTINCT ON, grouping sets, join kinds, LATERAL, CTE modifiers, set operations, RETURNING,
+	// ON CONFLICT / ON DUPLICATE KEY, MERGE, the DDL statements, casts, arrays, JSON operators, …) with the reviewed
+	// dump of the tree the grammar prescribes (every written clause, modifier, name and literal in its field, nothing
+	// else); each statement is also read in lower case, with doubled blanks, with line breaks and with a comment
+	// after every word: the tree must be the same up to the letter case of keywords
+	for _, e := range clauseCorpus() {
+		sqlText, want := e[0], e[1]
+		variants := []string{sqlText, lowerKeywordsOnly(sqlText), blanksOutsideQuotes(sqlText, "  "), blanksOutsideQuotes(sqlText, "\n"), blanksOutsideQuotes(sqlText, " /* c */ "), sqlText + ";", "  " + sqlText + " -- tail"}
+		for vi, v := range variants {
+			res.count("clause|"+v, true)
+			tree, err := gosqlx.Parse(v)
+			if err != nil {
+				res.fail("rejected:clause-catalogue", "a statement of the documented surface is rejected", map[string]any{"sql": v}, map[string]any{"error": strings.SplitN(err.Error(), "\n", 2)[0]})
+				continue
+			}
+			got := compactDump(reflect.ValueOf(tree.Statements))
+			ast.ReleaseAST(tree)
+			same := got == want
+			if vi == 1 {
+				same = strings.EqualFold(got, want)
+			}
+			if !same {
+				k := 0
+				for k < len(got) && k < len(want) && got[k] == want[k] {
+					k++
+				}
+				lo := k - 50
+				if lo < 0 {
+					lo = 0
+				}
+				res.fail("tree-differs:clause-catalogue:"+strings.ToLower(strings.SplitN(sqlText, " ", 2)[0]), "the parsed tree is not the tree the grammar prescribes", map[string]any{"sql": v},
+					map[string]any{"got": clip(got[lo:], 260), "want": clip(want[lo:], 260)})
 			}
 		}
 	}
